@@ -744,16 +744,22 @@ def gen_entry_scripts(tier, seed, variant):
                 k = rng.randrange(nk + 3)
                 res.append(rng.choice([f"entry_or_insert {k} {stamp} {rng.randrange(500)}", f"entry_insert {k} {stamp} {rng.randrange(500)}",
                                        f"entry_remove {k} {stamp}", f"entry_and_modify {k} {stamp} {rng.randrange(4)} {rng.randrange(500)}",
-                                       f"entry_drop {k} {stamp}", f"tryinsert {k} {stamp} {rng.randrange(500)}"]))
+                                       f"entry_drop {k} {stamp}", f"tryinsert {k} {stamp} {rng.randrange(500)}",
+                                       f"rentry_or_insert {k} {stamp} {rng.randrange(500)}", f"rentry_insert {k} {stamp} {rng.randrange(500)}",
+                                       f"rentry_remove {k} {stamp}", f"rentry_drop {k} {stamp}",
+                                       f"raw_or_insert {k} {stamp} {rng.randrange(500)}", f"raw_insert {k} {stamp} {rng.randrange(500)}",
+                                       f"raw_remove {k} {stamp}", f"raw_get {k}",
+                                       f"eref_or_insert {k} {stamp} {rng.randrange(500)}", f"eref_insert {k} {stamp} {rng.randrange(500)}",
+                                       f"eref_drop {k} {stamp}"]))
         out.append("\n".join(res) + "\n")
     return "".join(out) + gen_set_scripts(tier, seed + 7, variant)
 
 def check_c14(run):
-    ops = ("entry_", "tryinsert", "sgetorinsert", "sreplace", "sentry_insert", "xor_assign")
+    ops = ("entry_", "rentry_", "raw_", "eref_", "tryinsert", "sgetorinsert", "sreplace", "sentry_insert", "xor_assign")
     return script_property(
         run, gen_entry_scripts,
         relevant=lambda f: f.kind == "CRASH" or (f.kind in ("A-FAIL", "B-FAIL") and op_in(f, ops)),
-        rule="HashMap histories in which a third of the steps is followed by an entry-style operation on a present or absent key: entry(k).or_insert / insert / and_modify().or_insert / remove_entry / dropped unused, try_insert; plus HashSet histories with get_or_insert, get_or_insert_with, replace, entry(v).insert and `^=`; the states include growth_left = 0 (capacity() = len()), tombstone-laden tables and the unallocated singleton (counted in hard_branch_counts); every step is compared bit for bit with the extracted model and judged by the reference map, whose entry semantics are the get / insert / remove expansions. raw_entry_mut and rustc_entry are not exercised by the harness (listed as not modelled in DESIGN.md)",
+        rule="HashMap histories in which a third of the steps is followed by an entry-style operation on a present or absent key: entry(k).or_insert / insert / and_modify().or_insert / remove_entry / dropped unused, try_insert; plus HashSet histories with get_or_insert, get_or_insert_with, replace, entry(v).insert and `^=`; the states include growth_left = 0 (capacity() = len()), tombstone-laden tables and the unallocated singleton (counted in hard_branch_counts); every step is compared bit for bit with the extracted model and judged by the reference map, whose entry semantics are the get / insert / remove expansions; the same operations through rustc_entry (model: reserve(1) when the key is absent, then the entry operation -- also when the vacant entry is dropped unused), raw_entry_mut().from_key / from_key_hashed_nocheck, raw_entry().from_key and entry_ref (key built by From<&K>)",
         nontrivial_keys=("pre_growth_left_0", "tombstones_present", "small_table"))
 
 def gen_many_scripts(tier, seed, variant):
